@@ -299,6 +299,10 @@ def set_tags(
   clear_tags(buildable, argument)
   for tag in tags:
     add_tag(buildable, argument, tag)
+  if isinstance(argument, int):
+    argument = buildable.__signature_info__.index_to_key(
+        argument, buildable.__arguments__
+    )
   buildable.__argument_history__.add_updated_tags(
       argument, buildable.__argument_tags__[argument]
   )
